@@ -288,22 +288,31 @@ func main() {
 		specBytes, _ := json.Marshal(sp)
 		os.WriteFile(J("/spec.json"), specBytes, 0o644)
 		before := lib.Snapshot(jail)
-		cmd := exec.Command("/w", "jail", "/spec.json")
-		cmd.SysProcAttr = &syscall.SysProcAttr{Chroot: jail}
-		cmd.Dir = "/"
-		done := make(chan struct{})
-		var out []byte
-		var runErr error
-		go func() { out, runErr = cmd.Output(); close(done) }()
-		select {
-		case <-done:
-		case <-time.After(2 * time.Minute):
-			cmd.Process.Kill()
-			r.Inconclusive(fmt.Sprintf("jailed case %d hit the watchdog", ci))
-			return
-		}
 		var res jailResult
-		if runErr != nil || json.Unmarshal(out, &res) != nil {
+		for attempt := 0; ; attempt++ {
+			cmd := exec.Command("/w", "jail", "/spec.json")
+			cmd.SysProcAttr = &syscall.SysProcAttr{Chroot: jail}
+			cmd.Dir = "/"
+			done := make(chan struct{})
+			var out []byte
+			var runErr error
+			go func() { out, runErr = cmd.Output(); close(done) }()
+			select {
+			case <-done:
+			case <-time.After(2 * time.Minute):
+				cmd.Process.Kill()
+				r.Inconclusive(fmt.Sprintf("jailed case %d hit the watchdog", ci))
+				return
+			}
+			if runErr == nil && json.Unmarshal(out, &res) == nil {
+				break
+			}
+			// the jailed HARNESS process failed (could not be started, died without a result): nothing was observed about the
+			// library. If it left the jail untouched, the case is simply run again.
+			r.Event("jailed-worker-without-result")
+			if attempt < 2 && len(lib.DiffSnapEntries(before, lib.Snapshot(jail))) == 0 {
+				continue
+			}
 			r.Inconclusive(fmt.Sprintf("jailed worker failed for %+v: %v %s", c, runErr, out))
 			return
 		}
